@@ -112,11 +112,14 @@ Classify(flags, src, s) ==
   ELSE IF BinLower(u) THEN
        LET d == StripZeros(SubSeq(u, 3, Len(u))) IN
        (IF Len(d) <= 63 THEN R(IntOr(flags), IF Len(d) <= 20 /\ "-A" \notin flags THEN sgn * BaseVal(d, 2) ELSE NoVal)
-        ELSE R(Loose({"int", "float", "string"}, flags), NoVal))
+        \* 64 binary digits and more do not fit in a signed 64-bit integer, and the two's-complement reading is documented
+        \* for 16-digit hex only: whatever such a value is taken for, it is not an int (which could only have another value)
+        ELSE R(Loose({"float", "string"}, flags), NoVal))
   ELSE IF OctLower(u) THEN
        LET d == StripZeros(SubSeq(u, 3, Len(u))) IN
        (IF Len(d) <= 20 THEN R(IntOr(flags), IF Short(d) /\ "-A" \notin flags THEN sgn * BaseVal(d, 8) ELSE NoVal)
-        ELSE R(Loose({"int", "float", "string"}, flags), NoVal))
+        ELSE IF Len(d) = 21 THEN R(Loose({"int", "float", "string"}, flags), NoVal)
+        ELSE R(Loose({"float", "string"}, flags), NoVal))                      \* 22 octal digits and more: at least 64 bits
   ELSE IF UpperPrefixed(u) THEN R(Loose({"int", "float", "string"}, flags), NoVal)
   ELSE IF FloatForm(u) THEN (IF FloatEdge(u) THEN R({"float", "string"}, NoVal) ELSE R({"float"}, NoVal))
   ELSE R({"string"}, NoVal)
